@@ -97,7 +97,23 @@ def extract_grammar(ctx):
                            'loop': w, 'attach': attach, 'first': first[0]})
             cur = first[0].func.id
             continue
-        # recursive (right-associative) form: if tokens[0] in ops: node.right_child = self(...)
+        # recursive form: `if tokens[0] in ops: ...; node.right_child = <self or other>(...)` (no loop)
+        ifs = [i for i in fn.node.body if isinstance(i, ast.If) and _tok_set(ctx, fn, i.test) is not None]
+        if len(ifs) == 1 and any(isinstance(st, ast.Assign) and isinstance(st.targets[0], ast.Attribute) and st.targets[0].attr == 'right_child'
+                                 for st in ast.walk(ifs[0])):
+            w = ifs[0]
+            first = [c for st in fn.node.body if st is not w and st.lineno < w.lineno for c in _parse_calls(ctx, fn, st)]
+            inner = _parse_calls(ctx, fn, w)
+            if len(first) == 1 and len(inner) == 1:
+                attach = {}
+                for st in ast.walk(w):
+                    if isinstance(st, ast.Assign) and len(st.targets) == 1 and isinstance(st.targets[0], ast.Attribute) \
+                            and st.targets[0].attr in ('left_child', 'right_child'):
+                        attach[st.targets[0].attr] = st.value
+                levels.append({'fn': fn, 'name': cur, 'ops': _tok_set(ctx, fn, w.test), 'next': first[0].func.id,
+                               'right': inner[0].func.id, 'loop': w, 'attach': attach, 'first': first[0], 'recursive': True})
+                cur = first[0].func.id
+                continue
         break
     prim = ctx.repo.func(f'{EX}.{cur}')
     return top, levels, prim
@@ -112,9 +128,11 @@ def c07_1(ctx):
               'extracted: ' + ' < '.join('{' + ','.join(sorted(g)) + '}' for g in got))
     for i, l in enumerate(levels):
         nxt = levels[i + 1]['name'] if i + 1 < len(levels) else prim.name
-        ctx.check(l['next'] == nxt and l['right'] == nxt, f'grammar:left-assoc:{l["name"]}', l['fn'].site(l['loop']),
+        ctx.check(l['next'] == nxt and l['right'] == nxt and not l.get('recursive'), f'grammar:left-assoc:{l["name"]}', l['fn'].site(l['loop']),
                   f'level {l["name"]} is a loop whose left and right operands come from the next tighter level {nxt} (left-associative)',
-                  f'first operand from {l["next"]}, right operand from {l["right"]}')
+                  f'first operand from {l["next"]}, right operand from {l["right"]}' + (' by recursion instead of a loop (groups to the right)' if l.get('recursive') else ''))
+        if l.get('recursive'):
+            continue
         a = l['attach']
         ok = 'left_child' in a and 'right_child' in a and isinstance(a['right_child'], ast.Call) \
             and unparse(a['left_child']) != unparse(a['right_child']) and isinstance(a['left_child'], ast.Name)
@@ -457,6 +475,25 @@ def c07_5(ctx):
     sel = [r for r in returns(comp) if isinstance(r.value, ast.Subscript) and unparse(r.value.slice) == 'byte_idx']
     ctx.check(ok and len(sel) == 1, 'function:byte-selection', comp.site(tb[0]) if tb else comp.site(),
               'byte n is element n of the little-endian two\'s-complement representation', unparse(tb[0]) if tb else 'no to_bytes')
+    # the value is reduced modulo 2**(8*N) for the very N bytes it is then split into, N >= n + 1
+    if tb:
+        n_expr = tb[0].args[0] if tb[0].args else next((k.value for k in tb[0].keywords if k.arg == 'length'), None)
+        val = deref(ctx, comp, tb[0].func.value, tb[0])
+        r5 = resolver(ctx, comp, inline=False)
+        ok = False
+        detail = f'{unparse(val)} .to_bytes({unparse(n_expr)})'
+        if isinstance(val, ast.BinOp) and isinstance(val.op, ast.BitAnd) and n_expr is not None:
+            from engine.lin import to_lin
+            mask = val.right if 'arg_value' in unparse(val.left) else val.left
+            want = to_lin(ast.parse(f'2 ** (8 * ({unparse(n_expr)})) - 1', mode='eval').body, r5)
+            ok = to_lin(mask, r5).key() == want.key()
+            nd = deref(ctx, comp, n_expr, tb[0])
+            n_ok = isinstance(nd, ast.Call) and unparse(nd.func) == 'max' and any(
+                to_lin(a, r5).key() == to_lin(ast.parse('byte_idx + 1', mode='eval').body, r5).key() for a in nd.args)
+            ok = ok and n_ok
+            detail = f'mask {unparse(mask)}; length {unparse(n_expr)} = {unparse(nd)}'
+        ctx.check(ok, 'function:twos-complement-width', comp.site(tb[0]),
+                  'the argument is reduced modulo 2**(8*N) for the same N >= n+1 bytes it is split into (sign extension up to byte n)', detail)
     # LSB -> index 0
     init = [n for n in ast.walk(comp.node) if isinstance(n, ast.Assign) and unparse(n.targets[0]) == 'byte_idx']
     ok = any(isinstance(n.value, ast.Constant) and n.value.value == 0 for n in init)
@@ -510,6 +547,24 @@ MUTANTS = [
     V('c07-int-div', _X, "                        TokenType.T_RIGHT_SHIFT\n                    ]:", "                        TokenType.T_RIGHT_SHIFT,\n                        TokenType.T_DIV\n                    ]:", 'C07.3'),
     V('c07-trailing-tokens-ok', _X, "    ast = _parse_e(line_id, tokens)\n    _match(line_id, tokens, TokenType.T_END)\n", "    ast = _parse_e(line_id, tokens)\n", 'C07.1'),
     V('c07-func-arg-tight', _X, "        node = tokens.pop(0)\n        node.left_child = _parse_e(line_id, tokens)\n        _match(line_id, tokens, TokenType.T_RPAR)", "        node = tokens.pop(0)\n        node.left_child = _parse_e2(line_id, tokens)\n        _match(line_id, tokens, TokenType.T_RPAR)", 'C07.1'),
+]
+MUTANTS += [
+    V('c07-and-level-recursive', _X, '''    while tokens[0].token_type in [TokenType.T_AND, TokenType.T_OR, TokenType.T_XOR]:
+        node = tokens.pop(0)
+        node.left_child = left_node
+        node.right_child = _parse_e1(line_id, tokens)
+        left_node = node
+    return left_node''', '''    if tokens[0].token_type in [TokenType.T_AND, TokenType.T_OR, TokenType.T_XOR]:
+        node = tokens.pop(0)
+        node.left_child = left_node
+        node.right_child = _parse_e(line_id, tokens)
+        return node
+    return left_node''', 'C07.1:grammar:left-assoc:_parse_e'),
+    V('c07-byte-no-sign-extension', _X, '''            byte_count = max(((abs(arg_value).bit_length() + 7) // 8), byte_idx+1)
+            masked_arg = arg_value & (2**(8 * byte_count) - 1)''', '''            value_byte_count = max((abs(arg_value).bit_length() + 7) // 8, 1)
+            masked_arg = arg_value & (2**(8 * value_byte_count) - 1)
+            byte_count = max(value_byte_count, byte_idx+1)''', 'C07.5'),
+    V('c07-floor-final', _X, "        return int(calculated_value)", "        return int(calculated_value // 1)", 'C07.3'),
 ]
 TWINS = [
     V('c07-t-set-literal', _X, "while tokens[0].token_type in [TokenType.T_PLUS, TokenType.T_MINUS]:", "while tokens[0].token_type in (TokenType.T_MINUS, TokenType.T_PLUS):"),
